@@ -34,5 +34,5 @@ PROPS = {"C09": dict(
     technique="grammar-based chain generation at HTTP level with construction-known validity and independent RFC 6962 entry derivation",
     budget={"quick": 1500, "thorough": 3600},
     units=[
-        rapid("ctlog", "internal/ctlog", "^TestVerifC09Submissions$", 60, 500),
+        rapid("ctlog", "internal/ctlog", "^TestVerifC09Submissions$", 60, 420),
     ] + _finding)}
